@@ -20,11 +20,15 @@ NOT_YET = {}
 
 def load_fragments():
     d = os.path.join(HERE, "manifest.d")
+    enabled_path = os.path.join(d, "ENABLED")
+    enabled = set(open(enabled_path).read().split()) if os.path.exists(enabled_path) else set()
     if os.path.isdir(d):
         for f in sorted(os.listdir(d)):
             if f.endswith(".json"):
                 frag = json.load(open(os.path.join(d, f)))
                 for pid, c in frag.items():
+                    if pid not in enabled:
+                        continue   # fragment written by a builder, not yet integrated by the lead
                     if c.get("not_applicable"):
                         NOT_YET[pid] = c["not_applicable"]
                     else:
